@@ -43,7 +43,7 @@ static void sweep_case(long item)
 }
 struct case_budget chk_budget(const char *tier)
 {
-        struct case_budget b = { n_sweep(), strcmp(tier, "thorough") == 0 ? 800000 : 40000 };
+        struct case_budget b = { n_sweep(), strcmp(tier, "thorough") == 0 ? 4000000 : 120000 };
         return b;
 }
 void chk_run_case(uint64_t seed, long c, bool is_sweep)
